@@ -7,15 +7,17 @@
    Every document state is checked against the laws of the operators (Laws) and printed with its probes (Emit). *)
 EXTENDS JsonGen, Json
 
-CONSTANTS Mode, MaxDepth, GrowModes
+CONSTANTS Mode, MaxDepth, GrowModes,
+          FlatWidth,    \* objects of GFlat have up to this many pairs (3 = the full block)
+          LeafMode      \* "full": every scalar class is a leaf of the growing documents; "lite": a small alphabet
 
 VARIABLE st
 
 StaticBlocks == {"scalar", "flat", "dups"}
-DocsOf(b) == CASE b = "scalar" -> GScalar [] b = "flat" -> GFlat [] b = "dups" -> GDups
+DocsOf(b) == CASE b = "scalar" -> GScalar [] b = "flat" -> GFlatW(FlatWidth) [] b = "dups" -> GDups
 
 Init == IF Mode = "static" THEN st = [blk |-> "root"]
-        ELSE st \in {[grp |-> "grow", d |-> 0, doc |-> v] : v \in Leaves}
+        ELSE st \in {[grp |-> "grow", d |-> 0, doc |-> v] : v \in (IF LeafMode = "full" THEN Leaves ELSE LeavesLite)}
 
 NextStatic == \/ /\ st = [blk |-> "root"]
                  /\ \E b \in StaticBlocks : st' = [blk |-> b]
